@@ -13,7 +13,7 @@ from fractions import Fraction
 
 
 def is_sym(v):
-    return isinstance(v, (z3.ExprRef, GSum, FInt, FReal, LazySel, Cx))
+    return isinstance(v, (z3.ExprRef, GSum, FInt, FReal, LazySel, Cx, FFP))
 
 
 def b_not(a):
@@ -292,6 +292,14 @@ class FInt(object):
 
 
 class FReal(object):
+    __slots__ = ('t',)
+
+    def __init__(self, t):
+        self.t = t
+
+
+class FFP(object):
+    """bit-precise binary64 value (z3 FloatingPoint term); used only in fp-mode harnesses"""
     __slots__ = ('t',)
 
     def __init__(self, t):
